@@ -190,6 +190,7 @@ type ReplayOutcome struct {
 	Outcome  string // "pass", "fail", "not-a-witness", "error"
 	FailIDs  []string
 	Detail   string
+	raced    bool
 }
 
 const replayTestSrc = `//go:build verif
@@ -226,6 +227,7 @@ func TestVerifReplay(t *testing.T) {
 		if fn == nil {
 			continue
 		}
+		fmt.Printf("VERIF-REPLAY %s BEGIN\n", c.Name)
 		func() {
 			vTape, vPos, vFailures = c.Tape, 0, nil
 			vParams = c.Params
@@ -278,7 +280,7 @@ func harnessNames(dir string) []string {
 
 // runReplays executes the cases natively (one go test per package) and
 // returns outcomes by case name. dir receives the artefacts.
-func runReplays(dir string, cases []ReplayCase, mutant string) map[string]*ReplayOutcome {
+func runReplays(dir string, cases []ReplayCase, mutant string, raceID string) map[string]*ReplayOutcome {
 	out := map[string]*ReplayOutcome{}
 	os.MkdirAll(dir, 0o755)
 	byPkg := map[string][]ReplayCase{}
@@ -328,7 +330,12 @@ func runReplays(dir string, cases []ReplayCase, mutant string) map[string]*Repla
 		casePath := filepath.Join(pdir, "cases.json")
 		os.WriteFile(casePath, cb, 0o644)
 		pkgPath := "./" + pkgDirs[pkg]
-		cmd := exec.Command("go", "test", "-vet=off", "-count=1", "-tags", buildTags(), "-overlay", ovPath, "-run", "^TestVerifReplay$", "-timeout", "20m", "-v", pkgPath)
+		args := []string{"test", "-vet=off", "-count=1", "-tags", buildTags(), "-overlay", ovPath, "-run", "^TestVerifReplay$", "-timeout", "20m", "-v"}
+		if raceID != "" {
+			args = append(args, "-race")
+		}
+		args = append(args, pkgPath)
+		cmd := exec.Command("go", args...)
 		cmd.Dir = repoRoot()
 		cmd.Env = append(os.Environ(), "GOFLAGS=-mod=mod", "GOPROXY=off", "GOSUMDB=off", "GOTOOLCHAIN=local", "VERIF_REPLAY="+casePath)
 		outb, err := cmd.CombinedOutput()
@@ -336,8 +343,23 @@ func runReplays(dir string, cases []ReplayCase, mutant string) map[string]*Repla
 		script := fmt.Sprintf("#!/bin/sh\n# re-run this replay against the current /repo tree\ncd %s && GOFLAGS=-mod=mod GOPROXY=off GOSUMDB=off GOTOOLCHAIN=local VERIF_REPLAY=%s go test -vet=off -count=1 -tags %s -overlay %s -run '^TestVerifReplay$' -v %s\n", repoRoot(), casePath, buildTags(), ovPath, pkgPath)
 		os.WriteFile(filepath.Join(pdir, "replay.sh"), []byte(script), 0o755)
 		seen := map[string]bool{}
+		cur := ""
 		for _, l := range strings.Split(string(outb), "\n") {
 			l = strings.TrimSpace(l)
+			if raceID != "" && strings.Contains(l, "WARNING: DATA RACE") && cur != "" {
+				if o := out[cur]; o != nil {
+					has := false
+					for _, id := range o.FailIDs {
+						if id == raceID {
+							has = true
+						}
+					}
+					if !has {
+						o.FailIDs = append(o.FailIDs, raceID)
+						o.raced = true
+					}
+				}
+			}
 			if !strings.HasPrefix(l, "VERIF-REPLAY ") {
 				continue
 			}
@@ -351,8 +373,13 @@ func runReplays(dir string, cases []ReplayCase, mutant string) map[string]*Repla
 			}
 			seen[f[1]] = true
 			switch f[2] {
+			case "BEGIN":
+				cur = f[1]
 			case "PASS":
 				o.Outcome = "pass"
+				if o.raced {
+					o.Outcome = "fail"
+				}
 				o.Detail = ""
 			case "FAIL":
 				o.Outcome = "fail"
@@ -614,7 +641,7 @@ func checkMain(args []string) int {
 	// native replays
 	outcomes := map[string]*ReplayOutcome{}
 	if len(cases) > 0 && os.Getenv("GOSYM_NOREPLAY") == "" {
-		outcomes = runReplays(workDir, cases, mutant)
+		outcomes = runReplays(workDir, cases, mutant, def.RaceID)
 	}
 	violations := 0
 	kfSeen := map[string]bool{}
@@ -807,7 +834,11 @@ func replayMain(prop, path string) int {
 	}
 	dir := filepath.Join(verifRoot(), "work", "replay-"+prop)
 	os.RemoveAll(dir)
-	oc := runReplays(dir, []ReplayCase{{Name: "r0", Harness: w.Harness, Params: w.Params, Tape: w.Tape, Expect: w.Assertion}}, "")
+	raceID := ""
+	if d := checkDefs[prop]; d != nil {
+		raceID = d.RaceID
+	}
+	oc := runReplays(dir, []ReplayCase{{Name: "r0", Harness: w.Harness, Params: w.Params, Tape: w.Tape, Expect: w.Assertion}}, "", raceID)
 	o := oc["r0"]
 	fmt.Printf("replay of %s in %s: %s %v %s\n", w.Assertion, w.Harness, o.Outcome, o.FailIDs, o.Detail)
 	if o.Outcome == "fail" {
